@@ -28,8 +28,12 @@ def Node.hard (n : Node) :
 def CacheOnly (f : Node → Node) : Prop := ∀ n, (f n).hard = n.hard
 
 /-- What a state predicate must survive: one field per kind of primitive write.  Where the code
-guards a write, the guard is a hypothesis of the field. -/
-structure Stable (P : KState → Prop) : Prop where
+guards a write, the guard is a hypothesis of the field.  `Step.hold` has no guard in the code
+(`UPDATE step SET _holding = _holding + 1`, whatever the state of the step: that only RUNNING steps
+hold is the discipline of the caller, `DirectorHandler.hold`), so the structure takes one as a
+parameter: `G s k` is what is known of the state when `hold k` is requested.  `Stable P` below is the
+unguarded case. -/
+structure StableG (G : KState → Key → Prop) (P : KState → Prop) : Prop where
   /-- any update of cache and payload columns, on any set of rows -/
   cache : ∀ (s : KState) (p : Node → Bool) (f : Node → Node), CacheOnly f → P s → P (s.modifyWhere p f)
   /-- `UPDATE node SET detached = ?` on one row -/
@@ -54,7 +58,7 @@ structure Stable (P : KState → Prop) : Prop where
   setHash : ∀ (s : KState) (k : Key) (h : Nat), P s → P (s.setHash k h)
   deleteHash : ∀ (s : KState) (k : Key), P s → P (s.deleteHash k)
   bumpDefer : ∀ (s : KState) (k : Key), P s → P (s.modify k fun n => { n with deferCount := n.deferCount + 1 })
-  hold : ∀ (s : KState) (k : Key), P s → P (s.modify k fun n => { n with holding := n.holding + 1 })
+  hold : ∀ (s : KState) (k : Key), G s k → P s → P (s.modify k fun n => { n with holding := n.holding + 1 })
   release : ∀ (s : KState) (k : Key) (n : Node), s.find? k = some n → n.holding ≠ 0 → P s →
     P (s.modify k fun n => { n with holding := n.holding - 1 })
   /-- `Step.after_recycle` -/
@@ -77,8 +81,11 @@ structure Stable (P : KState → Prop) : Prop where
   queueDelete : ∀ (s : KState) (path : String) (h : Option Nat), P s → P (s.queueDelete path h)
   clearQueue : ∀ (s : KState), P s → P { s with toBeDeleted := [] }
 
-namespace Stable
-variable {P : KState → Prop}
+/-- Stable under every primitive write, `hold` on any step in any state included. -/
+abbrev Stable (P : KState → Prop) : Prop := StableG (fun _ _ => True) P
+
+namespace StableG
+variable {G : KState → Key → Prop} {P : KState → Prop}
 
 /-! ### Derived leaves: the primitives of `K/Prim.lean` -/
 
@@ -90,19 +97,19 @@ theorem modify_eq_modifyWhere (s : KState) (k : Key) (f : Node → Node) :
   intro n _
   by_cases h : n.key = k <;> simp [h]
 
-theorem cacheAt (L : Stable P) (s : KState) (k : Key) (f : Node → Node) (hf : CacheOnly f) (hp : P s) :
+theorem cacheAt (L : StableG G P) (s : KState) (k : Key) (f : Node → Node) (hf : CacheOnly f) (hp : P s) :
     P (s.modify k f) := by
   rw [modify_eq_modifyWhere]; exact L.cache _ _ _ hf hp
 
-theorem flagReadySinks (L : Stable P) (s : KState) (k : Key) (h : P s) : P (s.flagReadySinks k) := by
+theorem flagReadySinks (L : StableG G P) (s : KState) (k : Key) (h : P s) : P (s.flagReadySinks k) := by
   unfold KState.flagReadySinks
   exact L.cache s _ _ (fun _ => rfl) h
 
-theorem flagDepEndpoints (L : Stable P) (s : KState) (a b : Key) (hp : P s) : P (s.flagDepEndpoints a b) := by
+theorem flagDepEndpoints (L : StableG G P) (s : KState) (a b : Key) (hp : P s) : P (s.flagDepEndpoints a b) := by
   unfold KState.flagDepEndpoints
   exact L.cache _ _ _ (fun _ => rfl) hp
 
-theorem writeFile_preserves (L : Stable P) (k : Key) (st : FileState) (nh : Option (Option Nat)) :
+theorem writeFile_preserves (L : StableG G P) (k : Key) (st : FileState) (nh : Option (Option Nat)) :
     Preserves P (fun s => s.writeFile k st nh) := by
   intro s s' hp h
   unfold KState.writeFile at h
@@ -120,10 +127,10 @@ theorem writeFile_preserves (L : Stable P) (k : Key) (st : FileState) (nh : Opti
       · exact L.flagReadySinks _ _ hmod
       · exact hmod
 
-theorem setFileState_preserves (L : Stable P) (k : Key) (st : FileState) :
+theorem setFileState_preserves (L : StableG G P) (k : Key) (st : FileState) :
     Preserves P (fun s => s.setFileState k st) := L.writeFile_preserves k st none
 
-theorem writeStepState_preserves (L : Stable P) (k : Key) (st : StepState) (d : Option Bool) :
+theorem writeStepState_preserves (L : StableG G P) (k : Key) (st : StepState) (d : Option Bool) :
     Preserves P (fun s => s.writeStepState k st d) := by
   intro s s' hp h
   unfold KState.writeStepState at h
@@ -138,12 +145,12 @@ theorem writeStepState_preserves (L : Stable P) (k : Key) (st : StepState) (d : 
       subst h
       exact L.stepWrite s k n n' st d hf hw hp
 
-theorem setStepState_preserves (L : Stable P) (k : Key) (st : StepState) (d : Bool) :
+theorem setStepState_preserves (L : StableG G P) (k : Key) (st : StepState) (d : Bool) :
     Preserves P (fun s => s.setStepState k st d) := L.writeStepState_preserves k st (some d)
 
 /-- `mark_step_pending` (with the `mark_file_outdated` / `mark_consuming_steps_pending` recursion)
 preserves every stable predicate, for every fuel. -/
-theorem markStepPending_preserves (L : Stable P) (fuel : Nat) (k : Key) :
+theorem markStepPending_preserves (L : StableG G P) (fuel : Nat) (k : Key) :
     Preserves P (fun s => StepupModel.K.markStepPending fuel s k) := by
   induction fuel generalizing k with
   | zero => intro s s' _ h; simp [StepupModel.K.markStepPending] at h
@@ -180,16 +187,16 @@ theorem markStepPending_preserves (L : Stable P) (fuel : Nat) (k : Key) :
               · simp only [pure, Except.pure, Except.ok.injEq] at hstep; subst hstep; exact hst
           · simp only [pure, Except.pure, Except.ok.injEq] at h; subst h; exact hp1
 
-theorem markStepPending'_preserves (L : Stable P) (k : Key) : Preserves P (fun s => s.markStepPending k) := by
+theorem markStepPending'_preserves (L : StableG G P) (k : Key) : Preserves P (fun s => s.markStepPending k) := by
   intro s s' hp h
   exact L.markStepPending_preserves s.fuel k s s' hp h
 
-theorem markConsumersPending_preserves (L : Stable P) (f : Key) : Preserves P (fun s => s.markConsumersPending f) := by
+theorem markConsumersPending_preserves (L : StableG G P) (f : Key) : Preserves P (fun s => s.markConsumersPending f) := by
   intro s s' hp h
   unfold KState.markConsumersPending at h
   exact foldlM_preserves P _ _ (fun t => L.markStepPending'_preserves t) s s' hp h
 
-theorem markFileOutdated_preserves (L : Stable P) (f : Key) : Preserves P (fun s => s.markFileOutdated f) := by
+theorem markFileOutdated_preserves (L : StableG G P) (f : Key) : Preserves P (fun s => s.markFileOutdated f) := by
   intro s s' hp h
   unfold KState.markFileOutdated at h
   cases hf : s.find? f with
@@ -207,7 +214,7 @@ theorem markFileOutdated_preserves (L : Stable P) (f : Key) : Preserves P (fun s
       · simp only [pure, Except.pure, Except.ok.injEq] at h; subst h; exact hp
       · cases h
 
-theorem pendCreator_preserves (L : Stable P) (f : Key) : Preserves P (fun s => s.pendCreator f) := by
+theorem pendCreator_preserves (L : StableG G P) (f : Key) : Preserves P (fun s => s.pendCreator f) := by
   intro s s' hp h
   replace h : s.pendCreator f = .ok s' := h
   unfold KState.pendCreator at h
@@ -215,7 +222,7 @@ theorem pendCreator_preserves (L : Stable P) (f : Key) : Preserves P (fun s => s
   | none => simp [hc, pure, Except.pure] at h; subst h; exact hp
   | some c => simp only [hc] at h; exact L.markStepPending'_preserves c s s' hp h
 
-theorem handleUpdated_preserves (L : Stable P) (f : Key) : Preserves P (fun s => s.handleUpdated f) := by
+theorem handleUpdated_preserves (L : StableG G P) (f : Key) : Preserves P (fun s => s.handleUpdated f) := by
   intro s s' hp h
   replace h : s.handleUpdated f = .ok s' := h
   unfold KState.handleUpdated at h
@@ -227,7 +234,7 @@ theorem handleUpdated_preserves (L : Stable P) (f : Key) : Preserves P (fun s =>
     · rw [if_neg h2] at h
       simp only [pure, Except.pure, Except.ok.injEq] at h; subst h; exact hp
 
-theorem handleDeleted_preserves (L : Stable P) (f : Key) : Preserves P (fun s => s.handleDeleted f) := by
+theorem handleDeleted_preserves (L : StableG G P) (f : Key) : Preserves P (fun s => s.handleDeleted f) := by
   intro s s' hp h
   replace h : s.handleDeleted f = .ok s' := h
   unfold KState.handleDeleted at h
@@ -245,7 +252,7 @@ theorem handleDeleted_preserves (L : Stable P) (f : Key) : Preserves P (fun s =>
 
 /-- **`update_file_hashes` preserves every stable predicate**, for every
 cause, every set of paths and hashes, accepted or not. -/
-theorem updateFileHashes_preserves (L : Stable P) (updates : List (String × Option Nat)) (cause : Cause) :
+theorem updateFileHashes_preserves (L : StableG G P) (updates : List (String × Option Nat)) (cause : Cause) :
     Preserves P (fun s => s.updateFileHashes updates cause) := by
   intro s s' hp h
   replace h : s.updateFileHashes updates cause = .ok s' := h
@@ -275,7 +282,7 @@ theorem updateFileHashes_preserves (L : Stable P) (updates : List (String × Opt
 
 /-! ### Trellis operations -/
 
-theorem deleteDeps (L : Stable P) (s : KState) (p : Dep → Bool) (hp : P s) : P (s.deleteDeps p) := by
+theorem deleteDeps (L : StableG G P) (s : KState) (p : Dep → Bool) (hp : P s) : P (s.deleteDeps p) := by
   unfold KState.deleteDeps
   generalize (s.deps.filter p) = gone
   have base : P ({ s with deps := s.deps.filter fun d => !p d } : KState) := L.filterDeps s p hp
@@ -287,7 +294,7 @@ theorem deleteDeps (L : Stable P) (s : KState) (p : Dep → Bool) (hp : P s) : P
     apply ih
     exact L.flagDepEndpoints _ _ _ base
 
-theorem setDetachedRow (L : Stable P) (s : KState) (k : Key) (d : Bool) (hp : P s) : P (s.setDetachedRow k d) := by
+theorem setDetachedRow (L : StableG G P) (s : KState) (k : Key) (d : Bool) (hp : P s) : P (s.setDetachedRow k d) := by
   unfold KState.setDetachedRow
   cases hf : s.find? k with
   | none => exact hp
@@ -298,14 +305,14 @@ theorem setDetachedRow (L : Stable P) (s : KState) (k : Key) (d : Bool) (hp : P 
     · exact L.flagReadySinks _ _ h1
     · exact h1
 
-theorem setDetachedRec (L : Stable P) (s : KState) (k : Key) (d : Bool) (hp : P s) : P (s.setDetachedRec k d) := by
+theorem setDetachedRec (L : StableG G P) (s : KState) (k : Key) (d : Bool) (hp : P s) : P (s.setDetachedRec k d) := by
   unfold KState.setDetachedRec
   generalize s.descendants k = l
   induction l generalizing s with
   | nil => exact hp
   | cons x xs ih => simp only [List.foldl_cons]; exact ih _ (L.setDetachedRow s x d hp)
 
-theorem setCreator_preserves (L : Stable P) (k : Key) (c : Option Key) (d : Bool) :
+theorem setCreator_preserves (L : StableG G P) (k : Key) (c : Option Key) (d : Bool) :
     Preserves P (fun s => s.setCreator k c d) := by
   intro s s' hp h
   replace h : s.setCreator k c d = .ok s' := h
@@ -317,7 +324,7 @@ theorem setCreator_preserves (L : Stable P) (k : Key) (c : Option Key) (d : Bool
     exact L.setDetachedRow _ _ _ (L.creator s k c d hall hp)
   · cases h
 
-theorem flagChecksWithProducts_preserves (L : Stable P) (k : Key) : Preserves P (fun s => s.flagChecksWithProducts k) := by
+theorem flagChecksWithProducts_preserves (L : StableG G P) (k : Key) : Preserves P (fun s => s.flagChecksWithProducts k) := by
   intro s s' hp h
   replace h : s.flagChecksWithProducts k = .ok s' := h
   unfold KState.flagChecksWithProducts at h
@@ -327,7 +334,7 @@ theorem flagChecksWithProducts_preserves (L : Stable P) (k : Key) : Preserves P 
     subst h
     exact L.cache _ _ _ (fun _ => rfl) hp
 
-theorem flagCheckAfterSources_preserves (L : Stable P) (k : Key) : Preserves P (fun s => s.flagCheckAfterSources k) := by
+theorem flagCheckAfterSources_preserves (L : StableG G P) (k : Key) : Preserves P (fun s => s.flagCheckAfterSources k) := by
   intro s s' hp h
   replace h : s.flagCheckAfterSources k = .ok s' := h
   unfold KState.flagCheckAfterSources at h
@@ -337,7 +344,7 @@ theorem flagCheckAfterSources_preserves (L : Stable P) (k : Key) : Preserves P (
     subst h
     exact L.cache _ _ _ (fun _ => rfl) hp
 
-theorem detachCore_preserves (L : Stable P) (k : Key) (n : Node) : Preserves P (fun s => s.detachCore k n) := by
+theorem detachCore_preserves (L : StableG G P) (k : Key) (n : Node) : Preserves P (fun s => s.detachCore k n) := by
   intro s s' hp h
   replace h : s.detachCore k n = .ok s' := h
   unfold KState.detachCore at h
@@ -351,7 +358,7 @@ theorem detachCore_preserves (L : Stable P) (k : Key) (n : Node) : Preserves P (
     · exact hp1
   · simp only [pure, Except.pure, Except.ok.injEq] at h; subst h; exact hp
 
-theorem detachFlags_preserves (L : Stable P) (k : Key) : Preserves P (fun s => s.detachFlags k) := by
+theorem detachFlags_preserves (L : StableG G P) (k : Key) : Preserves P (fun s => s.detachFlags k) := by
   intro s s' hp h
   replace h : s.detachFlags k = .ok s' := h
   unfold KState.detachFlags at h
@@ -359,7 +366,7 @@ theorem detachFlags_preserves (L : Stable P) (k : Key) : Preserves P (fun s => s
   · exact preserves_bind (L.flagChecksWithProducts_preserves k) (L.flagCheckAfterSources_preserves k) s s' hp h
   · simp only [pure, Except.pure, Except.ok.injEq] at h; subst h; exact hp
 
-theorem detach_preserves (L : Stable P) (k : Key) : Preserves P (fun s => s.detach k) := by
+theorem detach_preserves (L : StableG G P) (k : Key) : Preserves P (fun s => s.detach k) := by
   intro s s' hp h
   replace h : s.detach k = .ok s' := h
   unfold KState.detach at h
@@ -369,13 +376,13 @@ theorem detach_preserves (L : Stable P) (k : Key) : Preserves P (fun s => s.deta
     simp only [hf] at h
     exact preserves_bind (L.detachCore_preserves k n) (L.detachFlags_preserves k) s s' hp h
 
-theorem detachCreatedSteps_preserves (L : Stable P) (k : Key) : Preserves P (fun s => s.detachCreatedSteps k) := by
+theorem detachCreatedSteps_preserves (L : StableG G P) (k : Key) : Preserves P (fun s => s.detachCreatedSteps k) := by
   intro s s' hp h
   replace h : s.detachCreatedSteps k = .ok s' := h
   unfold KState.detachCreatedSteps at h
   exact foldlM_preserves P _ _ (fun (p : Node) => L.detach_preserves p.key) s s' hp h
 
-theorem detachProductsWhere_preserves (L : Stable P) (k : Key) (p : Node → Bool) :
+theorem detachProductsWhere_preserves (L : StableG G P) (k : Key) (p : Node → Bool) :
     Preserves P (fun s => s.detachProductsWhere k p) := by
   intro s s' hp h
   replace h : s.detachProductsWhere k p = .ok s' := h
@@ -386,24 +393,24 @@ theorem detachProductsWhere_preserves (L : Stable P) (k : Key) (p : Node → Boo
 
 /-! ### Completion, cleanup and startup requests -/
 
-theorem dropDynamicInputs (L : Stable P) (s : KState) (k : Key) (hp : P s) : P (s.dropDynamicInputs k) := by
-  unfold KState.dropDynamicInputs
-  exact L.cacheAt _ _ _ (fun _ => rfl) (L.deleteDeps s _ hp)
+theorem dropDynamicInputs (L : StableG G P) (s : KState) (k : Key) (hp : P s) : P (s.dropDynamicInputs k) := by
+  unfold KState.dropDynamicInputs KState.flagDynamicSuppliers
+  exact L.cacheAt _ _ _ (fun _ => rfl) (L.deleteDeps _ _ (L.cache _ _ _ (fun _ => rfl) hp))
 
-theorem dropDynamicSink_preserves (L : Stable P) (step k : Key) : Preserves P (fun s => s.dropDynamicSink step k) := by
+theorem dropDynamicSink_preserves (L : StableG G P) (step k : Key) : Preserves P (fun s => s.dropDynamicSink step k) := by
   intro s s' hp h
   replace h : s.dropDynamicSink step k = .ok s' := h
   unfold KState.dropDynamicSink at h
   exact L.detach_preserves k _ s' (L.deleteDeps s _ hp) h
 
-theorem outdateBuilt_preserves (L : Stable P) (k : Key) : Preserves P (fun s => s.outdateBuilt k) := by
+theorem outdateBuilt_preserves (L : StableG G P) (k : Key) : Preserves P (fun s => s.outdateBuilt k) := by
   intro s s' hp h
   replace h : s.outdateBuilt k = .ok s' := h
   unfold KState.outdateBuilt at h
   exact foldlM_preserves P _ _ (fun (n : Node) => L.markFileOutdated_preserves n.key) s s' hp h
 
 /-- `Step.reset_for_rerun` preserves every stable predicate. -/
-theorem resetForRerun_preserves (L : Stable P) (k : Key) : Preserves P (fun s => s.resetForRerun k) := by
+theorem resetForRerun_preserves (L : StableG G P) (k : Key) : Preserves P (fun s => s.resetForRerun k) := by
   intro s s' hp h
   replace h : s.resetForRerun k = .ok s' := h
   unfold KState.resetForRerun at h
@@ -419,13 +426,13 @@ theorem resetForRerun_preserves (L : Stable P) (k : Key) : Preserves P (fun s =>
     refine bind_ok hh4 (fun s5 h5 => L.detachProductsWhere_preserves k _ s4 s5 hp4 h5) ?_
     exact L.outdateBuilt_preserves k
 
-theorem outdateBuiltProducts_preserves (L : Stable P) (k : Key) : Preserves P (fun s => s.outdateBuiltProducts k) := by
+theorem outdateBuiltProducts_preserves (L : StableG G P) (k : Key) : Preserves P (fun s => s.outdateBuiltProducts k) := by
   intro s s' hp h
   replace h : s.outdateBuiltProducts k = .ok s' := h
   unfold KState.outdateBuiltProducts at h
   exact foldlM_preserves P _ _ (fun (f : Node) => L.setFileState_preserves f.key .outdated) s s' hp h
 
-theorem rebuildOutdatedProducts_preserves (L : Stable P) (k : Key) : Preserves P (fun s => s.rebuildOutdatedProducts k) := by
+theorem rebuildOutdatedProducts_preserves (L : StableG G P) (k : Key) : Preserves P (fun s => s.rebuildOutdatedProducts k) := by
   intro s s' hp h
   replace h : s.rebuildOutdatedProducts k = .ok s' := h
   unfold KState.rebuildOutdatedProducts at h
@@ -436,7 +443,7 @@ theorem rebuildOutdatedProducts_preserves (L : Stable P) (k : Key) : Preserves P
   · exact preserves_bind (L.setFileState_preserves f.key .built) (L.markConsumersPending_preserves f.key) st st' hst hh
   · simp only [pure, Except.pure, Except.ok.injEq] at hh; subst hh; exact hst
 
-theorem completeFailure_preserves (L : Stable P) (cfg : KConfig) (k : Key) (wd : Bool) :
+theorem completeFailure_preserves (L : StableG G P) (cfg : KConfig) (k : Key) (wd : Bool) :
     Preserves P (fun s => s.completeFailure cfg k wd) := by
   intro s s' hp h
   replace h : s.completeFailure cfg k wd = .ok s' := h
@@ -461,7 +468,7 @@ theorem completeFailure_preserves (L : Stable P) (cfg : KConfig) (k : Key) (wd :
       · simp only [pure, Except.pure, Except.ok.injEq] at h3; subst h3; exact hp2
     · exact preserves_pure _ (fun s hs => L.deleteHash s k hs)
 
-theorem completeSuccess_preserves (L : Stable P) (k : Key) (hh : Nat) : Preserves P (fun s => s.completeSuccess k hh) := by
+theorem completeSuccess_preserves (L : StableG G P) (k : Key) (hh : Nat) : Preserves P (fun s => s.completeSuccess k hh) := by
   intro s s' hp h
   replace h : s.completeSuccess k hh = .ok s' := h
   unfold KState.completeSuccess at h
@@ -472,7 +479,7 @@ theorem completeSuccess_preserves (L : Stable P) (k : Key) (hh : Nat) : Preserve
 
 /-- `Step.mark_completed` preserves every stable predicate (both outcomes, with or without a
 deferral). -/
-theorem markCompleted_preserves (L : Stable P) (cfg : KConfig) (k : Key) (nh : Option Nat) (wd : Bool) (s s' : KState) (b : Bool)
+theorem markCompleted_preserves (L : StableG G P) (cfg : KConfig) (k : Key) (nh : Option Nat) (wd : Bool) (s s' : KState) (b : Bool)
     (hp : P s) (h : s.markCompleted cfg k nh wd = .ok (s', b)) : P s' := by
   unfold KState.markCompleted at h
   cases nh with
@@ -493,13 +500,13 @@ theorem markCompleted_preserves (L : Stable P) (cfg : KConfig) (k : Key) (nh : O
       obtain ⟨rfl, _⟩ := h
       exact L.completeSuccess_preserves k hh s s1 hp h1
 
-theorem markDir (L : Stable P) (s : KState) (d : String) (hp : P s) : P (s.markDirToBeDeleted d) := by
+theorem markDir (L : StableG G P) (s : KState) (d : String) (hp : P s) : P (s.markDirToBeDeleted d) := by
   unfold KState.markDirToBeDeleted
   split
   · exact hp
   · exact L.queueDelete _ _ _ hp
 
-theorem revertOutput_preserves (L : Stable P) (f : Key) : Preserves P (fun s => s.revertOutput f) := by
+theorem revertOutput_preserves (L : StableG G P) (f : Key) : Preserves P (fun s => s.revertOutput f) := by
   intro s s' hp h
   replace h : s.revertOutput f = .ok s' := h
   unfold KState.revertOutput at h
@@ -515,7 +522,7 @@ theorem revertOutput_preserves (L : Stable P) (f : Key) : Preserves P (fun s => 
     · simp only [pure, Except.pure, Except.ok.injEq] at h; subst h; exact hp
 
 /-- `finalize.revert_optional_steps` preserves every stable predicate. -/
-theorem revertStep_preserves (L : Stable P) (n : Node) : Preserves P (fun s => s.revertStep n) := by
+theorem revertStep_preserves (L : StableG G P) (n : Node) : Preserves P (fun s => s.revertStep n) := by
   intro s s' hp h
   replace h : s.revertStep n = .ok s' := h
   unfold KState.revertStep at h
@@ -527,14 +534,14 @@ theorem revertStep_preserves (L : Stable P) (n : Node) : Preserves P (fun s => s
   · intro a a' ha hh2
     exact foldlM_preserves P _ _ (fun f => L.revertOutput_preserves f) a a' ha hh2
 
-theorem revertOptional_preserves (L : Stable P) : Preserves P (fun s => s.revertOptional) := by
+theorem revertOptional_preserves (L : StableG G P) : Preserves P (fun s => s.revertOptional) := by
   intro s s' hp h
   replace h : s.revertOptional = .ok s' := h
   unfold KState.revertOptional at h
   exact foldlM_preserves P _ _ (fun (n : Node) => L.revertStep_preserves n) s s' hp h
 
 /-- `startup.reset_interrupted_steps` preserves every stable predicate. -/
-theorem resetInterrupted_preserves (L : Stable P) : Preserves P (fun s => s.resetInterrupted) := by
+theorem resetInterrupted_preserves (L : StableG G P) : Preserves P (fun s => s.resetInterrupted) := by
   intro s s' hp h
   replace h : s.resetInterrupted = .ok s' := h
   unfold KState.resetInterrupted at h
@@ -546,24 +553,23 @@ theorem resetInterrupted_preserves (L : Stable P) : Preserves P (fun s => s.rese
     · intro s2 s2' hp2 hh2
       exact foldlM_preserves P _ _ (fun (n : Node) => L.markStepPending'_preserves n.key) s2 s2' hp2 hh2
 
-theorem rescanEnvVars_preserves (L : Stable P) (cfg : KConfig) : Preserves P (fun s => s.rescanEnvVars cfg) := by
+theorem rescanEnvVars_preserves (L : StableG G P) (cfg : KConfig) : Preserves P (fun s => s.rescanEnvVars cfg) := by
   intro s s' hp h
   replace h : s.rescanEnvVars cfg = .ok s' := h
   unfold KState.rescanEnvVars at h
   exact foldlM_preserves P _ _ (fun (n : Node) => L.markStepPending'_preserves n.key) s s' hp h
 
-theorem hold_preserves (L : Stable P) (k : Key) : Preserves P (fun s => s.hold k) := by
-  intro s s' hp h
-  replace h : s.hold k = .ok s' := h
+theorem hold_preserves (L : StableG G P) (k : Key) (s s' : KState) (hg : G s k) (hp : P s)
+    (h : s.hold k = .ok s') : P s' := by
   unfold KState.hold at h
   simp only [bind, Except.bind] at h
   have hp1 : P (s.modify k fun n => { n with holding := n.holding + 1 }) :=
-    L.hold _ _ hp
+    L.hold _ _ hg hp
   split at h
   · exact L.flagChecksWithProducts_preserves k _ s' hp1 h
   · simp only [pure, Except.pure, Except.ok.injEq] at h; subst h; exact hp1
 
-theorem release_preserves (L : Stable P) (k : Key) : Preserves P (fun s => s.release k) := by
+theorem release_preserves (L : StableG G P) (k : Key) : Preserves P (fun s => s.release k) := by
   intro s s' hp h
   replace h : s.release k = .ok s' := h
   unfold KState.release at h
@@ -584,7 +590,7 @@ theorem release_preserves (L : Stable P) (k : Key) : Preserves P (fun s => s.rel
 
 /-! ### Scheduler requests -/
 
-theorem updateMetaSafe_preserves (L : Stable P) : Preserves P (fun s => s.updateMetaSafe) := by
+theorem updateMetaSafe_preserves (L : StableG G P) : Preserves P (fun s => s.updateMetaSafe) := by
   intro s s' hp h
   replace h : s.updateMetaSafe = .ok s' := h
   unfold KState.updateMetaSafe at h
@@ -600,7 +606,7 @@ theorem updateMetaSafe_preserves (L : Stable P) : Preserves P (fun s => s.update
       dsimp only
       split <;> rfl
 
-theorem applyAfterUpdates (L : Stable P) (s : KState) (u : List (Key × Need × Nat)) (hp : P s) :
+theorem applyAfterUpdates (L : StableG G P) (s : KState) (u : List (Key × Need × Nat)) (hp : P s) :
     P (s.applyAfterUpdates u) := by
   unfold KState.applyAfterUpdates
   refine L.cache _ _ _ ?_ hp
@@ -608,7 +614,7 @@ theorem applyAfterUpdates (L : Stable P) (s : KState) (u : List (Key × Need × 
   dsimp only
   split <;> rfl
 
-theorem afterLoop_preserves (L : Stable P) (cfg : KConfig) (fuel : Nat) (s s' : KState) (work : List Key) (first : Bool)
+theorem afterLoop_preserves (L : StableG G P) (cfg : KConfig) (fuel : Nat) (s s' : KState) (work : List Key) (first : Bool)
     (hp : P s) (h : KState.afterLoop cfg fuel s work first = some s') : P s' := by
   induction fuel generalizing s work first with
   | zero =>
@@ -622,7 +628,7 @@ theorem afterLoop_preserves (L : Stable P) (cfg : KConfig) (fuel : Nat) (s s' : 
     · simp only [Option.some.injEq] at h; subst h; exact hp
     · exact ih _ _ _ (L.applyAfterUpdates s _ hp) h
 
-theorem updateMetaAfter_preserves (L : Stable P) (cfg : KConfig) : Preserves P (fun s => s.updateMetaAfter cfg) := by
+theorem updateMetaAfter_preserves (L : StableG G P) (cfg : KConfig) : Preserves P (fun s => s.updateMetaAfter cfg) := by
   intro s s' hp h
   replace h : s.updateMetaAfter cfg = .ok s' := h
   unfold KState.updateMetaAfter at h
@@ -636,11 +642,11 @@ theorem updateMetaAfter_preserves (L : Stable P) (cfg : KConfig) : Preserves P (
       exact L.cache _ _ _ (fun _ => rfl) (L.afterLoop_preserves cfg _ s st _ _ hp hst)
     · cases h
 
-theorem updateMetaReady (L : Stable P) (s : KState) (hp : P s) : P s.updateMetaReady := by
+theorem updateMetaReady (L : StableG G P) (s : KState) (hp : P s) : P s.updateMetaReady := by
   unfold KState.updateMetaReady
   exact L.cache _ _ _ (fun _ => rfl) hp
 
-theorem updateMeta_preserves (L : Stable P) (cfg : KConfig) : Preserves P (fun s => s.updateMeta cfg) := by
+theorem updateMeta_preserves (L : StableG G P) (cfg : KConfig) : Preserves P (fun s => s.updateMeta cfg) := by
   intro s s' hp h
   replace h : s.updateMeta cfg = .ok s' := h
   unfold KState.updateMeta at h
@@ -650,7 +656,7 @@ theorem updateMeta_preserves (L : Stable P) (cfg : KConfig) : Preserves P (fun s
   exact preserves_pure _ (fun s hs => L.updateMetaReady s hs)
 
 /-- `pop_next_job` preserves every stable predicate. -/
-theorem popNext_preserves (L : Stable P) (cfg : KConfig) (choice : Option Key) (s s' : KState) (d : Dispatch)
+theorem popNext_preserves (L : StableG G P) (cfg : KConfig) (choice : Option Key) (s s' : KState) (d : Dispatch)
     (hp : P s) (h : s.popNext cfg choice = .ok (s', d)) : P s' := by
   unfold KState.popNext at h
   simp only [bind, Except.bind] at h
@@ -686,7 +692,7 @@ theorem popNext_preserves (L : Stable P) (cfg : KConfig) (choice : Option Key) (
                 obtain ⟨rfl, _⟩ := h
                 exact L.setStepState_preserves k _ false su s2 hpu hs
 
-theorem reconcileTarget_preserves (L : Stable P) (t : String) : Preserves P (fun s => s.reconcileTarget t) := by
+theorem reconcileTarget_preserves (L : StableG G P) (t : String) : Preserves P (fun s => s.reconcileTarget t) := by
   intro s s' hp h
   replace h : s.reconcileTarget t = .ok s' := h
   unfold KState.reconcileTarget at h
@@ -705,7 +711,7 @@ theorem reconcileTarget_preserves (L : Stable P) (t : String) : Preserves P (fun
           exact L.cacheAt _ _ _ (fun _ => rfl) hp
         · simp only [pure, Except.pure, Except.ok.injEq] at h; subst h; exact hp
 
-theorem reconcileTargets_preserves (L : Stable P) (cfg : KConfig) : Preserves P (fun s => s.reconcileTargets cfg) := by
+theorem reconcileTargets_preserves (L : StableG G P) (cfg : KConfig) : Preserves P (fun s => s.reconcileTargets cfg) := by
   intro s s' hp h
   replace h : s.reconcileTargets cfg = .ok s' := h
   unfold KState.reconcileTargets at h
@@ -722,7 +728,7 @@ theorem reconcileTargets_preserves (L : Stable P) (cfg : KConfig) : Preserves P 
 
 /-! ### `reattach`, `create` -/
 
-theorem afterLostProduct_preserves (L : Stable P) (k : Key) : Preserves P (fun s => s.afterLostProduct k) := by
+theorem afterLostProduct_preserves (L : StableG G P) (k : Key) : Preserves P (fun s => s.afterLostProduct k) := by
   intro s s' hp h
   replace h : s.afterLostProduct k = .ok s' := h
   unfold KState.afterLostProduct at h
@@ -732,7 +738,7 @@ theorem afterLostProduct_preserves (L : Stable P) (k : Key) : Preserves P (fun s
   · cases h
   · cases h
 
-theorem lostProduct_preserves (L : Stable P) (old : Option Key) : Preserves P (fun s => s.lostProduct old) := by
+theorem lostProduct_preserves (L : StableG G P) (old : Option Key) : Preserves P (fun s => s.lostProduct old) := by
   intro s s' hp h
   replace h : s.lostProduct old = .ok s' := h
   unfold KState.lostProduct at h
@@ -744,7 +750,7 @@ theorem lostProduct_preserves (L : Stable P) (old : Option Key) : Preserves P (f
     · cases h
     · exact L.afterLostProduct_preserves oc s s' hp h
 
-theorem flagIfStep_preserves (L : Stable P) (k : Key) : Preserves P (fun s => s.flagIfStep k) := by
+theorem flagIfStep_preserves (L : StableG G P) (k : Key) : Preserves P (fun s => s.flagIfStep k) := by
   intro s s' hp h
   replace h : s.flagIfStep k = .ok s' := h
   unfold KState.flagIfStep at h
@@ -752,7 +758,7 @@ theorem flagIfStep_preserves (L : Stable P) (k : Key) : Preserves P (fun s => s.
   · exact L.flagChecksWithProducts_preserves k s s' hp h
   · simp only [pure, Except.pure, Except.ok.injEq] at h; subst h; exact hp
 
-theorem reattachCore_preserves (L : Stable P) (k c : Key) (n : Node) : Preserves P (fun s => s.reattachCore k c n) := by
+theorem reattachCore_preserves (L : StableG G P) (k c : Key) (n : Node) : Preserves P (fun s => s.reattachCore k c n) := by
   intro s s' hp h
   replace h : s.reattachCore k c n = .ok s' := h
   unfold KState.reattachCore at h
@@ -763,7 +769,7 @@ theorem reattachCore_preserves (L : Stable P) (k c : Key) (n : Node) : Preserves
   intro s2 s2' hp2 hh2
   exact L.flagIfStep_preserves k _ s2' (L.setDetachedRec s2 k _ hp2) hh2
 
-theorem reattach_preserves (L : Stable P) (k c : Key) : Preserves P (fun s => s.reattach k c) := by
+theorem reattach_preserves (L : StableG G P) (k c : Key) : Preserves P (fun s => s.reattach k c) := by
   intro s s' hp h
   replace h : s.reattach k c = .ok s' := h
   unfold KState.reattach at h
@@ -777,13 +783,13 @@ theorem reattach_preserves (L : Stable P) (k c : Key) : Preserves P (fun s => s.
       · cases h
       · exact L.reattachCore_preserves k c n s s' hp h
 
-theorem detachProducts_preserves (L : Stable P) (k : Key) : Preserves P (fun s => s.detachProducts k) := by
+theorem detachProducts_preserves (L : StableG G P) (k : Key) : Preserves P (fun s => s.detachProducts k) := by
   intro s s' hp h
   replace h : s.detachProducts k = .ok s' := h
   unfold KState.detachProducts at h
   exact foldlM_preserves P _ _ (fun (p : Node) => L.detach_preserves p.key) s s' hp h
 
-theorem writeInitialFile_preserves (L : Stable P) (k : Key) (state : FileState) (existed : Bool)
+theorem writeInitialFile_preserves (L : StableG G P) (k : Key) (state : FileState) (existed : Bool)
     (hfresh : existed = false → NoHashState state) :
     Preserves P (fun s => s.writeInitialFile k state existed) := by
   intro s s' hp h
@@ -803,7 +809,7 @@ theorem writeInitialFile_preserves (L : Stable P) (k : Key) (state : FileState) 
       | true => rfl
       | false => exact absurd ⟨hu, by simp [hd]⟩ hund
 
-theorem initFileRow_preserves (L : Stable P) (k : Key) (st : FileState) (existed : Bool) (hst : NoHashState st) :
+theorem initFileRow_preserves (L : StableG G P) (k : Key) (st : FileState) (existed : Bool) (hst : NoHashState st) :
     Preserves P (fun s => s.initFileRow k st existed) := by
   intro s s' hp h
   replace h : s.initFileRow k st existed = .ok s' := h
@@ -819,7 +825,7 @@ theorem initFileRow_preserves (L : Stable P) (k : Key) (st : FileState) (existed
     · exact L.markFileOutdated_preserves k s1 s1' hp1 hh1
     · simp only [pure, Except.pure, Except.ok.injEq] at hh1; subst hh1; exact hp1
 
-theorem initRow_preserves (L : Stable P) (k : Key) (init : Init) (existed : Bool) (hi : InitOK init) :
+theorem initRow_preserves (L : StableG G P) (k : Key) (init : Init) (existed : Bool) (hi : InitOK init) :
     Preserves P (fun s => s.initRow k init existed) := by
   intro s s' hp h
   replace h : s.initRow k init existed = .ok s' := h
@@ -830,7 +836,7 @@ theorem initRow_preserves (L : Stable P) (k : Key) (init : Init) (existed : Bool
   | file st => exact L.initFileRow_preserves k st existed hi s s' hp h
   | step i => simp only [pure, Except.pure, Except.ok.injEq] at h; subst h; exact L.stepInit _ _ _ hp
 
-theorem recycleCore_preserves (L : Stable P) (k : Key) (n : Node) (creator : Option Key) (init : Init) (hi : InitOK init) :
+theorem recycleCore_preserves (L : StableG G P) (k : Key) (n : Node) (creator : Option Key) (init : Init) (hi : InitOK init) :
     Preserves P (fun s => s.recycleCore k n creator init) := by
   intro s s' hp h
   replace h : s.recycleCore k n creator init = .ok s' := h
@@ -845,7 +851,7 @@ theorem recycleCore_preserves (L : Stable P) (k : Key) (n : Node) (creator : Opt
 /-- `Trellis.create` (fresh node, or partial recycle of a detached one) preserves every stable
 predicate, for every declarable initial state; the fresh branch is where `find? k = none` reaches
 the `appendNode` leaf. -/
-theorem create_preserves (L : Stable P) (k : Key) (creator : Option Key) (init : Init) (hi : InitOK init) :
+theorem create_preserves (L : StableG G P) (k : Key) (creator : Option Key) (init : Init) (hi : InitOK init) :
     Preserves P (fun s => s.create k creator init) := by
   intro s s' hp h
   replace h : s.create k creator init = .ok s' := h
@@ -869,7 +875,7 @@ theorem create_preserves (L : Stable P) (k : Key) (creator : Option Key) (init :
 
 /-! ### Declarations -/
 
-theorem volatileSinkCheck_preserves (_L : Stable P) (p : String) (st : FileState) :
+theorem volatileSinkCheck_preserves (_L : StableG G P) (p : String) (st : FileState) :
     Preserves P (fun s => s.volatileSinkCheck p st) := by
   intro s s' hp h
   replace h : s.volatileSinkCheck p st = .ok s' := h
@@ -878,7 +884,7 @@ theorem volatileSinkCheck_preserves (_L : Stable P) (p : String) (st : FileState
   · simp [graphErr] at h
   · simp only [pure, Except.pure, Except.ok.injEq] at h; subst h; exact hp
 
-theorem declareFile_preserves (L : Stable P) (cfg : KConfig) (creator : Key) (p : String) (st : FileState) :
+theorem declareFile_preserves (L : StableG G P) (cfg : KConfig) (creator : Key) (p : String) (st : FileState) :
     Preserves P (fun s => s.declareFile cfg creator p st) := by
   intro s s' hp h
   replace h : s.declareFile cfg creator p st = .ok s' := h
@@ -893,7 +899,7 @@ theorem declareFile_preserves (L : Stable P) (cfg : KConfig) (creator : Key) (p 
     refine bind_ok hh (fun s1 h1 => ?_) (L.volatileSinkCheck_preserves p st)
     exact L.create_preserves _ _ (.file st) (declarable_noHash hd) s s1 hp h1
 
-theorem declareAll_preserves (L : Stable P) (cfg : KConfig) (todo : List (Key × String)) (st : FileState) :
+theorem declareAll_preserves (L : StableG G P) (cfg : KConfig) (todo : List (Key × String)) (st : FileState) :
     Preserves P (fun s => s.declareAll cfg todo st) := by
   intro s s' hp h
   replace h : s.declareAll cfg todo st = .ok s' := h
@@ -901,7 +907,7 @@ theorem declareAll_preserves (L : Stable P) (cfg : KConfig) (todo : List (Key ×
   exact foldlM_preserves P (fun (acc : KState) (dp : Key × String) => acc.declareFile cfg dp.1 dp.2 st) todo
     (fun dp => L.declareFile_preserves cfg dp.1 dp.2 st) s s' hp h
 
-theorem declareStaticFiles_preserves (L : Stable P) (cfg : KConfig) (creator : Key) (paths : List String) (s : KState)
+theorem declareStaticFiles_preserves (L : StableG G P) (cfg : KConfig) (creator : Key) (paths : List String) (s : KState)
     (r : KState × List String) (hp : P s) (h : s.declareStaticFiles cfg creator paths = .ok r) : P r.1 := by
   unfold KState.declareStaticFiles at h
   refine bind_ok_gen h (fun _ => True) (fun _ _ => trivial) (fun r => P r.1) ?_
@@ -911,13 +917,13 @@ theorem declareStaticFiles_preserves (L : Stable P) (cfg : KConfig) (creator : K
   simp only [pure, Except.pure, Except.ok.injEq] at hb
   subst hb; exact ha
 
-theorem handOver (L : Stable P) (s : KState) (tk : Key) (hs : List Key) (hp : P s) : P (s.handOver tk hs) := by
+theorem handOver (L : StableG G P) (s : KState) (tk : Key) (hs : List Key) (hp : P s) : P (s.handOver tk hs) := by
   unfold KState.handOver
   induction hs generalizing s with
   | nil => exact hp
   | cons k ks ih => simp only [List.foldl_cons]; exact ih _ (L.handOverRow _ _ _ hp)
 
-theorem registerTreeBody_preserves (L : Stable P) (cfg : KConfig) (creator : Key) (path : String) (g : Option (List Key)) (s : KState)
+theorem registerTreeBody_preserves (L : StableG G P) (cfg : KConfig) (creator : Key) (path : String) (g : Option (List Key)) (s : KState)
     (r : KState × List String) (hp : P s) (h : s.registerTreeBody cfg creator path g = .ok r) : P r.1 := by
   cases g with
   | none =>
@@ -929,7 +935,7 @@ theorem registerTreeBody_preserves (L : Stable P) (cfg : KConfig) (creator : Key
     intro s1 r1 hp1 hh
     exact L.declareStaticFiles_preserves cfg _ _ _ r1 (L.handOver s1 _ hs hp1) hh
 
-theorem registerStaticTree_preserves (L : Stable P) (cfg : KConfig) (creator : Key) (path : String) (s : KState)
+theorem registerStaticTree_preserves (L : StableG G P) (cfg : KConfig) (creator : Key) (path : String) (s : KState)
     (r : KState × List String) (hp : P s) (h : s.registerStaticTree cfg creator path = .ok r) : P r.1 := by
   unfold KState.registerStaticTree at h
   refine bind_ok_gen h (fun _ => True) (fun _ _ => trivial) (fun r => P r.1) ?_
@@ -938,7 +944,7 @@ theorem registerStaticTree_preserves (L : Stable P) (cfg : KConfig) (creator : K
   intro g r2 _ hh2
   exact L.registerTreeBody_preserves cfg creator _ g s r2 hp hh2
 
-theorem adoptByTree_preserves (L : Stable P) (cfg : KConfig) (path : String) (t : Key) (s : KState) (r : KState × FileState × Bool)
+theorem adoptByTree_preserves (L : StableG G P) (cfg : KConfig) (path : String) (t : Key) (s : KState) (r : KState × FileState × Bool)
     (hp : P s) (h : s.adoptByTree cfg path t = .ok r) : P r.1 := by
   unfold KState.adoptByTree at h
   refine bind_ok_gen h (fun _ => True) (fun _ _ => trivial) (fun r => P r.1) ?_
@@ -949,7 +955,7 @@ theorem adoptByTree_preserves (L : Stable P) (cfg : KConfig) (path : String) (t 
   simp only [pure, Except.pure, Except.ok.injEq] at hh2
   subst hh2; exact hp1
 
-theorem placeholder_preserves (L : Stable P) (path : String) (s : KState) (r : KState × FileState × Bool)
+theorem placeholder_preserves (L : StableG G P) (path : String) (s : KState) (r : KState × FileState × Bool)
     (hp : P s) (h : s.placeholder path = .ok r) : P r.1 := by
   unfold KState.placeholder at h
   refine bind_ok_gen h P
@@ -958,7 +964,7 @@ theorem placeholder_preserves (L : Stable P) (path : String) (s : KState) (r : K
   simp only [pure, Except.pure, Except.ok.injEq] at hh2
   subst hh2; exact hp1
 
-theorem resolveWith_preserves (L : Stable P) (cfg : KConfig) (path : String) (tree : Option Key) (node : Option Node) (s : KState)
+theorem resolveWith_preserves (L : StableG G P) (cfg : KConfig) (path : String) (tree : Option Key) (node : Option Node) (s : KState)
     (r : KState × FileState × Bool) (hp : P s) (h : s.resolveWith cfg path tree node = .ok r) : P r.1 := by
   cases tree with
   | some t =>
@@ -980,14 +986,14 @@ theorem resolveWith_preserves (L : Stable P) (cfg : KConfig) (path : String) (tr
         simp only [pure, Except.pure, Except.ok.injEq] at hh
         subst hh; exact hp
 
-theorem resolveNode_preserves (L : Stable P) (cfg : KConfig) (path : String) (s : KState) (r : KState × FileState × Bool)
+theorem resolveNode_preserves (L : StableG G P) (cfg : KConfig) (path : String) (s : KState) (r : KState × FileState × Bool)
     (hp : P s) (h : s.resolveNode cfg path = .ok r) : P r.1 := by
   unfold KState.resolveNode at h
   refine bind_ok_gen h (fun _ => True) (fun _ _ => trivial) (fun r => P r.1) ?_
   intro tree r1 _ hh
   exact L.resolveWith_preserves cfg path tree _ s r1 hp hh
 
-theorem resolveSupply_preserves (L : Stable P) (cfg : KConfig) (step : Key) (path : String) (rn : Bool) (s : KState)
+theorem resolveSupply_preserves (L : StableG G P) (cfg : KConfig) (step : Key) (path : String) (rn : Bool) (s : KState)
     (r : KState × Supply) (hp : P s) (h : s.resolveSupply cfg step path rn = .ok r) : P r.1 := by
   unfold KState.resolveSupply at h
   refine bind_ok_gen h (fun a => P a.1) (fun a ha => L.resolveNode_preserves cfg path s a hp ha)
@@ -1000,7 +1006,7 @@ theorem resolveSupply_preserves (L : Stable P) (cfg : KConfig) (step : Key) (pat
   · simp only [pure, Except.pure, bind, Except.bind, Except.ok.injEq] at hh
     subst hh; exact ha
 
-theorem resolveAll_preserves (L : Stable P) (cfg : KConfig) (step : Key) (paths : List String) (rn : Bool) (s : KState)
+theorem resolveAll_preserves (L : StableG G P) (cfg : KConfig) (step : Key) (paths : List String) (rn : Bool) (s : KState)
     (r : KState × List Supply) (hp : P s) (h : s.resolveAll cfg step paths rn = .ok r) : P r.1 := by
   unfold KState.resolveAll at h
   refine foldlM_inv (fun (a : KState × List Supply) => P a.1) _ paths ?_ (s, []) r hp h
@@ -1012,7 +1018,7 @@ theorem resolveAll_preserves (L : Stable P) (cfg : KConfig) (step : Key) (paths 
   simp only [pure, Except.pure, Except.ok.injEq] at hd
   subst hd; exact hc
 
-theorem insertDep_preserves (L : Stable P) (a b : Key) : Preserves P (fun s => s.insertDep a b) := by
+theorem insertDep_preserves (L : StableG G P) (a b : Key) : Preserves P (fun s => s.insertDep a b) := by
   intro s s' hp h
   replace h : s.insertDep a b = .ok s' := h
   unfold KState.insertDep at h
@@ -1027,7 +1033,7 @@ theorem insertDep_preserves (L : Stable P) (a b : Key) : Preserves P (fun s => s
       subst h
       exact L.flagDepEndpoints _ a b (L.addDep s a b (by simpa using hdup) (by simpa using hkind) hp)
 
-theorem insertNewEdges_preserves (L : Stable P) (step : Key) (infos : List Supply) :
+theorem insertNewEdges_preserves (L : StableG G P) (step : Key) (infos : List Supply) :
     Preserves P (fun s => s.insertNewEdges step infos) := by
   intro s s' hp h
   replace h : s.insertNewEdges step infos = .ok s' := h
@@ -1035,7 +1041,7 @@ theorem insertNewEdges_preserves (L : Stable P) (step : Key) (infos : List Suppl
   exact foldlM_preserves P (fun (st : KState) (i : Supply) => st.insertDep i.file step) _
     (fun i => L.insertDep_preserves i.file step) s s' hp h
 
-theorem supplyFiles_preserves (L : Stable P) (cfg : KConfig) (step : Key) (paths : List String) (rn : Bool) (s : KState)
+theorem supplyFiles_preserves (L : StableG G P) (cfg : KConfig) (step : Key) (paths : List String) (rn : Bool) (s : KState)
     (r : KState × List Supply) (hp : P s) (h : s.supplyFiles cfg step paths rn = .ok r) : P r.1 := by
   unfold KState.supplyFiles at h
   refine bind_ok_gen h (fun a => P a.1) (fun a ha => L.resolveAll_preserves cfg step paths rn s a hp ha)
@@ -1051,7 +1057,7 @@ theorem supplyFiles_preserves (L : Stable P) (cfg : KConfig) (step : Key) (paths
     simp only [pure, Except.pure, Except.ok.injEq] at hh2
     subst hh2; exact hp2
 
-theorem addSourceChecked_preserves (L : Stable P) (a b : Key) : Preserves P (fun s => s.addSourceChecked a b) := by
+theorem addSourceChecked_preserves (L : StableG G P) (a b : Key) : Preserves P (fun s => s.addSourceChecked a b) := by
   intro s s' hp h
   replace h : s.addSourceChecked a b = .ok s' := h
   unfold KState.addSourceChecked at h
@@ -1060,14 +1066,14 @@ theorem addSourceChecked_preserves (L : Stable P) (a b : Key) : Preserves P (fun
   · simp only [pure, Except.pure, bind, Except.bind] at h
     exact L.insertDep_preserves b a s s' hp h
 
-theorem declareProduct_preserves (L : Stable P) (cfg : KConfig) (step : Key) (p : String) (st : FileState) :
+theorem declareProduct_preserves (L : StableG G P) (cfg : KConfig) (step : Key) (p : String) (st : FileState) :
     Preserves P (fun s => s.declareProduct cfg step p st) := by
   intro s s' hp h
   replace h : s.declareProduct cfg step p st = .ok s' := h
   unfold KState.declareProduct at h
   exact bind_ok h (fun s1 h1 => L.declareFile_preserves cfg step p st s s1 hp h1) (L.addSourceChecked_preserves _ _)
 
-theorem declareProducts_preserves (L : Stable P) (cfg : KConfig) (step : Key) (ps : List String) (st : FileState) :
+theorem declareProducts_preserves (L : StableG G P) (cfg : KConfig) (step : Key) (ps : List String) (st : FileState) :
     Preserves P (fun s => s.declareProducts cfg step ps st) := by
   intro s s' hp h
   replace h : s.declareProducts cfg step ps st = .ok s' := h
@@ -1075,10 +1081,10 @@ theorem declareProducts_preserves (L : Stable P) (cfg : KConfig) (step : Key) (p
   exact foldlM_preserves P (fun (acc : KState) (p : String) => acc.declareProduct cfg step p st) ps
     (fun p => L.declareProduct_preserves cfg step p st) s s' hp h
 
-theorem setStepExtras (L : Stable P) (s : KState) (sk : Key) (d : StepDecl) (hp : P s) : P (s.setStepExtras sk d) :=
+theorem setStepExtras (L : StableG G P) (s : KState) (sk : Key) (d : StepDecl) (hp : P s) : P (s.setStepExtras sk d) :=
   L.cacheAt _ _ _ (fun _ => rfl) hp
 
-theorem afterRecycle_preserves (L : Stable P) (sk : Key) (d : StepDecl) (n : Node) :
+theorem afterRecycle_preserves (L : StableG G P) (sk : Key) (d : StepDecl) (n : Node) :
     Preserves P (fun s => s.afterRecycle sk d n) := by
   intro s s' hp h
   replace h : s.afterRecycle sk d n = .ok s' := h
@@ -1089,7 +1095,7 @@ theorem afterRecycle_preserves (L : Stable P) (sk : Key) (d : StepDecl) (n : Nod
   · exact L.markStepPending'_preserves sk _ s' hp2 h
   · simp only [pure, Except.pure, Except.ok.injEq] at h; subst h; exact hp2
 
-theorem recycleStep_preserves (L : Stable P) (sk creator : Key) (d : StepDecl) (n : Node) :
+theorem recycleStep_preserves (L : StableG G P) (sk creator : Key) (d : StepDecl) (n : Node) :
     Preserves P (fun s => s.recycleStep sk creator d n) := by
   intro s s' hp h
   replace h : s.recycleStep sk creator d n = .ok s' := h
@@ -1102,7 +1108,7 @@ theorem recycleStep_preserves (L : Stable P) (sk creator : Key) (d : StepDecl) (
   subst h4
   exact L.setStepExtras _ _ _ hp3
 
-theorem createStep_preserves (L : Stable P) (cfg : KConfig) (sk creator : Key) (d : StepDecl) (s : KState)
+theorem createStep_preserves (L : StableG G P) (cfg : KConfig) (sk creator : Key) (d : StepDecl) (s : KState)
     (r : KState × List String) (hp : P s) (h : s.createStep cfg sk creator d = .ok r) : P r.1 := by
   unfold KState.createStep at h
   refine bind_ok_gen h P (fun s1 h1 => L.create_preserves _ _ (.step _) trivial s s1 hp h1) (fun r => P r.1) ?_
@@ -1129,7 +1135,7 @@ theorem createStep_preserves (L : Stable P) (cfg : KConfig) (sk creator : Key) (
   simp only [pure, Except.pure, Except.ok.injEq] at hh4
   subst hh4; exact hp6
 
-theorem defineStep_preserves (L : Stable P) (cfg : KConfig) (creator : Key) (d : StepDecl) (s : KState)
+theorem defineStep_preserves (L : StableG G P) (cfg : KConfig) (creator : Key) (d : StepDecl) (s : KState)
     (r : KState × List String) (hp : P s) (h : s.defineStep cfg creator d = .ok r) : P r.1 := by
   unfold KState.defineStep at h
   refine bind_ok_gen h (fun _ => True) (fun _ _ => trivial) (fun r => P r.1) ?_
@@ -1147,18 +1153,18 @@ theorem defineStep_preserves (L : Stable P) (cfg : KConfig) (creator : Key) (d :
     intro _ r2 _ hh2
     exact L.createStep_preserves cfg sk creator _ s r2 hp hh2
 
-theorem setDynamic (L : Stable P) (s : KState) (a b : Key) (d : Bool) (hp : P s) : P (s.setDynamic a b d) := by
+theorem setDynamic (L : StableG G P) (s : KState) (a b : Key) (d : Bool) (hp : P s) : P (s.setDynamic a b d) := by
   unfold KState.setDynamic
   refine L.cacheAt _ _ _ (fun n => ?_) (L.markDyn s a b d hp)
   split <;> rfl
 
-theorem markDynamic (L : Stable P) (s : KState) (edges : List (Key × Key)) (hp : P s) : P (s.markDynamic edges) := by
+theorem markDynamic (L : StableG G P) (s : KState) (edges : List (Key × Key)) (hp : P s) : P (s.markDynamic edges) := by
   unfold KState.markDynamic
   induction edges generalizing s with
   | nil => exact hp
   | cons e es ih => simp only [List.foldl_cons]; exact ih _ (L.setDynamic s _ _ _ hp)
 
-theorem amendEnv (L : Stable P) (s : KState) (cfg : KConfig) (step : Key) (env : List String) (hp : P s) :
+theorem amendEnv (L : StableG G P) (s : KState) (cfg : KConfig) (step : Key) (env : List String) (hp : P s) :
     P (s.amendEnv cfg step env) := by
   unfold KState.amendEnv
   refine L.cacheAt _ _ _ (fun n => ?_) hp
@@ -1170,7 +1176,7 @@ theorem amendEnv (L : Stable P) (s : KState) (cfg : KConfig) (step : Key) (env :
     · exact ih _
     · exact (ih _).trans rfl
 
-theorem amendProducts_preserves (L : Stable P) (cfg : KConfig) (step : Key) (infos : List Supply) (env out vol : List String)
+theorem amendProducts_preserves (L : StableG G P) (cfg : KConfig) (step : Key) (infos : List Supply) (env out vol : List String)
     (conc : List Key) (s1 : KState) (r : KState × AmendResult) (ha : P s1)
     (hh : s1.amendProducts cfg step infos env out vol conc = .ok r) : P r.1 := by
   unfold KState.amendProducts at hh
@@ -1193,7 +1199,7 @@ theorem amendProducts_preserves (L : Stable P) (cfg : KConfig) (step : Key) (inf
   subst hh7
   exact L.markDynamic _ _ hp4
 
-theorem amendStep_preserves (L : Stable P) (cfg : KConfig) (step : Key) (inp env out vol : List String) (conc : List Key)
+theorem amendStep_preserves (L : StableG G P) (cfg : KConfig) (step : Key) (inp env out vol : List String) (conc : List Key)
     (s : KState) (r : KState × AmendResult) (hp : P s)
     (h : s.amendStep cfg step inp env out vol conc = .ok r) : P r.1 := by
   unfold KState.amendStep at h
@@ -1205,7 +1211,7 @@ theorem amendStep_preserves (L : Stable P) (cfg : KConfig) (step : Key) (inp env
   obtain ⟨s1, infos⟩ := a
   exact L.amendProducts_preserves cfg step infos env out vol conc s1 r1 ha hh
 
-theorem registerNglob_preserves (L : Stable P) (step : Key) (pattern : String) (found : List String) :
+theorem registerNglob_preserves (L : StableG G P) (step : Key) (pattern : String) (found : List String) :
     Preserves P (fun s => s.registerNglob step pattern found) := by
   intro s s' hp h
   replace h : s.registerNglob step pattern found = .ok s' := h
@@ -1216,7 +1222,7 @@ theorem registerNglob_preserves (L : Stable P) (step : Key) (pattern : String) (
   subst hh
   exact L.cacheAt _ _ _ (fun _ => rfl) hp
 
-theorem registerNglobs_preserves (L : Stable P) (creator : Key) (patterns : List (String × List String)) :
+theorem registerNglobs_preserves (L : StableG G P) (creator : Key) (patterns : List (String × List String)) :
     Preserves P (fun s => s.registerNglobs creator patterns) := by
   intro s s' hp h
   replace h : s.registerNglobs creator patterns = .ok s' := h
@@ -1224,7 +1230,7 @@ theorem registerNglobs_preserves (L : Stable P) (creator : Key) (patterns : List
   exact foldlM_preserves P (fun (st : KState) (pm : String × List String) => st.registerNglob creator pm.1 pm.2)
     patterns (fun pm => L.registerNglob_preserves creator pm.1 pm.2) s s' hp h
 
-theorem registerTrees_preserves (L : Stable P) (cfg : KConfig) (creator : Key) (trees : List String) (s : KState)
+theorem registerTrees_preserves (L : StableG G P) (cfg : KConfig) (creator : Key) (trees : List String) (s : KState)
     (r : KState × List String) (hp : P s) (h : s.registerTrees cfg creator trees = .ok r) : P r.1 := by
   unfold KState.registerTrees at h
   refine foldlM_inv (fun (a : KState × List String) => P a.1) _ trees ?_ (s, []) r hp h
@@ -1236,7 +1242,7 @@ theorem registerTrees_preserves (L : Stable P) (cfg : KConfig) (creator : Key) (
   simp only [pure, Except.pure, Except.ok.injEq] at hd
   subst hd; exact hc
 
-theorem declareStaticRequest_preserves (L : Stable P) (cfg : KConfig) (creator : Key) (trees files : List String)
+theorem declareStaticRequest_preserves (L : StableG G P) (cfg : KConfig) (creator : Key) (trees files : List String)
     (patterns : List (String × List String)) (s : KState) (r : KState × List String) (hp : P s)
     (h : s.declareStaticRequest cfg creator trees files patterns = .ok r) : P r.1 := by
   unfold KState.declareStaticRequest at h
@@ -1259,7 +1265,7 @@ theorem declareStaticRequest_preserves (L : Stable P) (cfg : KConfig) (creator :
 
 /-! ### Cleanup (`for`-loop form, through the loop rules of `Lemmas/ForIn.lean`) -/
 
-theorem beforeDelete_preserves (L : Stable P) (n : Node) : Preserves P (fun s => s.beforeDelete n) := by
+theorem beforeDelete_preserves (L : StableG G P) (n : Node) : Preserves P (fun s => s.beforeDelete n) := by
   intro s s' hp h
   replace h : s.beforeDelete n = .ok s' := h
   unfold KState.beforeDelete at h
@@ -1284,7 +1290,7 @@ theorem beforeDelete_preserves (L : Stable P) (n : Node) : Preserves P (fun s =>
 
 /-- One deletion of `Trellis.delete_detached`: the incoming edges go first, so the row that is
 removed is the sink of no edge. -/
-theorem passBody_preserves (L : Stable P) (n : Node) (b : KState × List Key) (r : ForInStep (KState × List Key))
+theorem passBody_preserves (L : StableG G P) (n : Node) (b : KState × List Key) (r : ForInStep (KState × List Key))
     (hp : P b.1) (h : passBody n b = .ok r) : P r.value.1 := by
   unfold passBody at h
   simp only at h
@@ -1304,7 +1310,7 @@ theorem passBody_preserves (L : Stable P) (n : Node) (b : KState × List Key) (r
     | none => simp only [hcr, pure, Except.pure, Except.ok.injEq] at h; subst h; exact hp2
     | some c => simp only [hcr, pure, Except.pure, Except.ok.injEq] at h; subst h; exact hp2
 
-theorem deletePass_preserves (L : Stable P) (s : KState) (r : KState × List Key × Bool) (hp : P s)
+theorem deletePass_preserves (L : StableG G P) (s : KState) (r : KState × List Key × Bool) (hp : P s)
     (h : s.deletePass = .ok r) : P r.1 := by
   rw [deletePass_eq] at h
   refine bind_ok_gen h (fun a => P a.1) (fun a ha => ?_) (fun r => P r.1) ?_
@@ -1315,7 +1321,7 @@ theorem deletePass_preserves (L : Stable P) (s : KState) (r : KState × List Key
     simp only [pure, Except.pure, Except.ok.injEq] at hb
     subst hb; exact ha
 
-theorem baseBody_preserves (L : Stable P) (x : Nat) (b : KState × List Key) (r : ForInStep (KState × List Key))
+theorem baseBody_preserves (L : StableG G P) (x : Nat) (b : KState × List Key) (r : ForInStep (KState × List Key))
     (hp : P b.1) (h : baseBody x b = .ok r) : P r.value.1 := by
   unfold baseBody at h
   refine bind_ok_gen h (fun a => P a.1) (fun a ha => L.deletePass_preserves b.1 a hp ha) (fun r => P r.value.1) ?_
@@ -1326,7 +1332,7 @@ theorem baseBody_preserves (L : Stable P) (x : Nat) (b : KState × List Key) (r 
   · simp only [pure, Except.pure, Except.ok.injEq] at hh; subst hh; exact ha
   · simp only [pure, Except.pure, Except.ok.injEq] at hh; subst hh; exact ha
 
-theorem lostBody_preserves (L : Stable P) (c : Key) (st : KState) (r : ForInStep KState) (hp : P st)
+theorem lostBody_preserves (L : StableG G P) (c : Key) (st : KState) (r : ForInStep KState) (hp : P st)
     (h : lostBody c st = .ok r) : P r.value := by
   unfold lostBody at h
   split at h
@@ -1336,7 +1342,7 @@ theorem lostBody_preserves (L : Stable P) (c : Key) (st : KState) (r : ForInStep
   · simp only [pure, Except.pure, Except.ok.injEq] at h; subst h; exact hp
 
 /-- `Trellis.delete_detached` preserves every stable predicate. -/
-theorem deleteDetachedBase_preserves (L : Stable P) : Preserves P (fun s => s.deleteDetachedBase) := by
+theorem deleteDetachedBase_preserves (L : StableG G P) : Preserves P (fun s => s.deleteDetachedBase) := by
   intro s s' hp h
   replace h : s.deleteDetachedBase = .ok s' := h
   rw [deleteDetachedBase_eq] at h
@@ -1352,7 +1358,7 @@ theorem deleteDetachedBase_preserves (L : Stable P) : Preserves P (fun s => s.de
     · intro a2 b2 ha2 hb2
       simp only [pure, Except.pure, Except.ok.injEq] at hb2; subst hb2; exact ha2
 
-theorem treeInner_preserves (L : Stable P) (f : Node) (st : KState) (r : ForInStep KState) (hp : P st)
+theorem treeInner_preserves (L : StableG G P) (f : Node) (st : KState) (r : ForInStep KState) (hp : P st)
     (h : treeInner f st = .ok r) : P r.value := by
   unfold treeInner at h
   split at h
@@ -1361,7 +1367,7 @@ theorem treeInner_preserves (L : Stable P) (f : Node) (st : KState) (r : ForInSt
     simp only [pure, Except.pure, Except.ok.injEq] at hh; subst hh; exact ha
   · simp only [pure, Except.pure, Except.ok.injEq] at h; subst h; exact hp
 
-theorem treeOuter_preserves (L : Stable P) (t : Node) (st : KState) (r : ForInStep KState) (hp : P st)
+theorem treeOuter_preserves (L : StableG G P) (t : Node) (st : KState) (r : ForInStep KState) (hp : P st)
     (h : treeOuter t st = .ok r) : P r.value := by
   unfold treeOuter at h
   simp only at h
@@ -1373,7 +1379,7 @@ theorem treeOuter_preserves (L : Stable P) (t : Node) (st : KState) (r : ForInSt
     simp only [pure, Except.pure, Except.ok.injEq] at hh; subst hh; exact ha
 
 /-- `Workflow.delete_detached` preserves every stable predicate. -/
-theorem deleteDetached_preserves (L : Stable P) : Preserves P (fun s => s.deleteDetached) := by
+theorem deleteDetached_preserves (L : StableG G P) : Preserves P (fun s => s.deleteDetached) := by
   intro s s' hp h
   replace h : s.deleteDetached = .ok s' := h
   rw [deleteDetached_eq] at h
@@ -1391,11 +1397,13 @@ theorem unitOut_ok {x : M KState} {res : KState × String} (h : unitOut x = .ok 
   | error e => simp [hx] at h
   | ok a => simp only [hx, Except.ok.injEq] at h; subst h; rfl
 
-end Stable
+end StableG
 
-/-- Every kernel request that is accepted maps a state satisfying a stable predicate to one. -/
-theorem exec_stable {P : KState → Prop} (L : Stable P) (cfg : KConfig) (r : Req) (s : KState) (res : KState × String)
-    (hp : P s) (h : s.exec cfg r = .ok res) : P res.1 := by
+/-- Every kernel request that is accepted maps a state satisfying a stable predicate to one
+(a `hold` request under its guard). -/
+theorem exec_stableG {G : KState → Key → Prop} {P : KState → Prop} (L : StableG G P) (cfg : KConfig) (r : Req)
+    (s : KState) (res : KState × String) (hg : ∀ k, r = .hold k → G s k) (hp : P s)
+    (h : s.exec cfg r = .ok res) : P res.1 := by
   cases r with
   | define c d =>
     simp only [KState.exec] at h
@@ -1426,59 +1434,88 @@ theorem exec_stable {P : KState → Prop} (L : Stable P) (cfg : KConfig) (r : Re
       (fun r => P r.1) ?_
     intro a b ha hb; obtain ⟨st, chk⟩ := a
     simp only [pure, Except.pure, Except.ok.injEq] at hb; subst hb; exact ha
-  | nglob k p ms => exact L.registerNglob_preserves k p ms s _ hp (Stable.unitOut_ok h)
-  | hashes u c => exact L.updateFileHashes_preserves u c s _ hp (Stable.unitOut_ok h)
+  | nglob k p ms => exact L.registerNglob_preserves k p ms s _ hp (StableG.unitOut_ok h)
+  | hashes u c => exact L.updateFileHashes_preserves u c s _ hp (StableG.unitOut_ok h)
   | pop c =>
     simp only [KState.exec] at h
     refine bind_ok_gen h (fun a => P a.1) (fun a ha => L.popNext_preserves cfg c s a.1 a.2 hp ha) (fun r => P r.1) ?_
     intro a b ha hb; obtain ⟨st, d⟩ := a
     simp only [pure, Except.pure, Except.ok.injEq] at hb; subst hb; exact ha
-  | updateMeta => exact L.updateMeta_preserves cfg s _ hp (Stable.unitOut_ok h)
-  | resetRerun k => exact L.resetForRerun_preserves k s _ hp (Stable.unitOut_ok h)
+  | updateMeta => exact L.updateMeta_preserves cfg s _ hp (StableG.unitOut_ok h)
+  | resetRerun k => exact L.resetForRerun_preserves k s _ hp (StableG.unitOut_ok h)
   | completed k nh wd =>
     simp only [KState.exec] at h
     refine bind_ok_gen h (fun a => P a.1) (fun a ha => L.markCompleted_preserves cfg k nh wd s a.1 a.2 hp ha)
       (fun r => P r.1) ?_
     intro a b ha hb; obtain ⟨st, d⟩ := a
     simp only [pure, Except.pure, Except.ok.injEq] at hb; subst hb; exact ha
-  | setState k stt => exact L.setStepState_preserves k stt false s _ hp (Stable.unitOut_ok h)
+  | setState k stt => exact L.setStepState_preserves k stt false s _ hp (StableG.unitOut_ok h)
   | deleteHash k =>
-    have := Stable.unitOut_ok h
+    have := StableG.unitOut_ok h
     simp only [pure, Except.pure, Except.ok.injEq] at this
     rw [← this]; exact L.deleteHash s k hp
-  | markPending k => exact L.markStepPending'_preserves k s _ hp (Stable.unitOut_ok h)
-  | hold k => exact L.hold_preserves k s _ hp (Stable.unitOut_ok h)
-  | release k => exact L.release_preserves k s _ hp (Stable.unitOut_ok h)
-  | detach k => exact L.detach_preserves k s _ hp (Stable.unitOut_ok h)
-  | revertOptional => exact L.revertOptional_preserves s _ hp (Stable.unitOut_ok h)
-  | deleteDetached => exact L.deleteDetached_preserves s _ hp (Stable.unitOut_ok h)
+  | markPending k => exact L.markStepPending'_preserves k s _ hp (StableG.unitOut_ok h)
+  | hold k => exact L.hold_preserves k s _ (hg k rfl) hp (StableG.unitOut_ok h)
+  | release k => exact L.release_preserves k s _ hp (StableG.unitOut_ok h)
+  | detach k => exact L.detach_preserves k s _ hp (StableG.unitOut_ok h)
+  | revertOptional => exact L.revertOptional_preserves s _ hp (StableG.unitOut_ok h)
+  | deleteDetached => exact L.deleteDetached_preserves s _ hp (StableG.unitOut_ok h)
   | clearQueue =>
-    have := Stable.unitOut_ok h
+    have := StableG.unitOut_ok h
     simp only [pure, Except.pure, Except.ok.injEq] at this
     rw [← this]; exact L.clearQueue s hp
-  | resetInterrupted => exact L.resetInterrupted_preserves s _ hp (Stable.unitOut_ok h)
-  | rescanEnv => exact L.rescanEnvVars_preserves cfg s _ hp (Stable.unitOut_ok h)
-  | reconcile => exact L.reconcileTargets_preserves cfg s _ hp (Stable.unitOut_ok h)
+  | resetInterrupted => exact L.resetInterrupted_preserves s _ hp (StableG.unitOut_ok h)
+  | rescanEnv => exact L.rescanEnvVars_preserves cfg s _ hp (StableG.unitOut_ok h)
+  | reconcile => exact L.reconcileTargets_preserves cfg s _ hp (StableG.unitOut_ok h)
 
-/-- One transaction, accepted or rolled back, keeps every stable predicate. -/
-theorem step_stable {P : KState → Prop} (L : Stable P) (cfg : KConfig) (r : Req) (s : KState) (hp : P s) :
-    P (s.step cfg r) := by
+theorem step_stableG {G : KState → Key → Prop} {P : KState → Prop} (L : StableG G P) (cfg : KConfig) (r : Req)
+    (s : KState) (hg : ∀ k, r = .hold k → G s k) (hp : P s) : P (s.step cfg r) := by
   unfold KState.step
   cases h : s.exec cfg r with
   | error e => exact hp
-  | ok res => obtain ⟨s', out⟩ := res; exact exec_stable L cfg r s (s', out) hp h
+  | ok res => obtain ⟨s', out⟩ := res; exact exec_stableG L cfg r s (s', out) hg hp h
 
-/-- Every history of accepted and rejected requests keeps every stable predicate. -/
-theorem run_stable {P : KState → Prop} (L : Stable P) (h : List (KConfig × Req)) (s : KState) (hp : P s) :
-    P (s.run h) := by
+/-- A history in which every `hold k` request meets the guard `G` on the state it is issued in. -/
+def HoldsGuarded (G : KState → Key → Prop) : KState → List (KConfig × Req) → Prop
+  | _, [] => True
+  | s, cr :: rest => (∀ k, cr.2 = .hold k → G s k) ∧ HoldsGuarded G (s.step cr.1 cr.2) rest
+
+theorem run_stableG {G : KState → Key → Prop} {P : KState → Prop} (L : StableG G P) (h : List (KConfig × Req))
+    (s : KState) (hp : P s) (hg : HoldsGuarded G s h) : P (s.run h) := by
   unfold KState.run
   induction h generalizing s with
   | nil => exact hp
-  | cons x xs ih => simp only [List.foldl_cons]; exact ih _ (step_stable L x.1 x.2 s hp)
+  | cons x xs ih =>
+    simp only [List.foldl_cons]
+    exact ih _ (step_stableG L x.1 x.2 s hg.1 hp) hg.2
+
+theorem holdsGuarded_true (s : KState) (h : List (KConfig × Req)) : HoldsGuarded (fun _ _ => True) s h := by
+  induction h generalizing s with
+  | nil => trivial
+  | cons x xs ih => exact ⟨fun _ _ => trivial, ih _⟩
+
+/-- Every kernel request that is accepted maps a state satisfying a stable predicate to one. -/
+theorem exec_stable {P : KState → Prop} (L : Stable P) (cfg : KConfig) (r : Req) (s : KState) (res : KState × String)
+    (hp : P s) (h : s.exec cfg r = .ok res) : P res.1 :=
+  exec_stableG L cfg r s res (fun _ _ => trivial) hp h
+
+/-- One transaction, accepted or rolled back, keeps every stable predicate. -/
+theorem step_stable {P : KState → Prop} (L : Stable P) (cfg : KConfig) (r : Req) (s : KState) (hp : P s) :
+    P (s.step cfg r) := step_stableG L cfg r s (fun _ _ => trivial) hp
+
+/-- Every history of accepted and rejected requests keeps every stable predicate. -/
+theorem run_stable {P : KState → Prop} (L : Stable P) (h : List (KConfig × Req)) (s : KState) (hp : P s) :
+    P (s.run h) := run_stableG L h s hp (holdsGuarded_true s h)
 
 /-- **Every predicate that is stable under the primitive writes and holds of the empty workflow
 is an invariant of every history of accepted and rejected requests.** -/
 theorem reachable_stable {P : KState → Prop} (L : Stable P) (h0 : P KState.init) (h : List (KConfig × Req)) :
     P (KState.init.run h) := run_stable L h KState.init h0
+
+/-- The guarded form: stable under every write, `hold` only under `G`; invariant of every history
+whose `hold` requests meet `G`. -/
+theorem reachable_stableG {G : KState → Key → Prop} {P : KState → Prop} (L : StableG G P) (h0 : P KState.init)
+    (h : List (KConfig × Req)) (hg : HoldsGuarded G KState.init h) : P (KState.init.run h) :=
+  run_stableG L h KState.init h0 hg
 
 end StepupModel.K
